@@ -398,3 +398,69 @@ class Prop(PropBase):
                     cur, changed = c2, True
                     break
         return cur
+
+
+# ---------------------------------------------------------------------------------------------------------------
+# "dedispersion edge cropping" is part of this property: the crops of coherent and incoherent dedispersion are
+# exercised through the machinery of C05 / C06 (their models, oracles and generators), as delegated cases.
+_Own = Prop
+
+
+class Prop(_Own):
+    rule = _Own.rule + (" Dedispersion edge crops: a batch of the C06 (incoherent) and C05 (coherent) crop cases is run through "
+                        "those checks' own models and oracles.")
+
+    def _sub(self, pid):
+        import importlib
+        cache = self.__dict__.setdefault("_subs", {})
+        if pid not in cache:
+            cache[pid] = importlib.import_module(f"pbverif.props.{pid.lower()}").Prop()
+        return cache[pid]
+
+    def cases(self, rng, tier):
+        import random as _r
+        yield from super().cases(rng, tier)
+        quick = tier == "quick"
+        for pid, want, k in (("C06", "incoh", 80 if quick else 2000), ("C05", "coh", 20 if quick else 300)):
+            n = 0
+            for c in self._sub(pid).cases(_r.Random(rng.random()), "quick" if quick else "thorough"):
+                if c.get("op") == want:
+                    yield {"op": "delegate", "prop": pid, "case": c}
+                    n += 1
+                    if n >= k:
+                        break
+
+    def _d(self, name, case, *a):
+        if isinstance(case, dict) and case.get("op") == "delegate":
+            return getattr(self._sub(case["prop"]), name)(case["case"], *a)
+        return getattr(super(), name)(case, *a)
+
+    def run_code(self, case):
+        return self._d("run_code", case)
+
+    def model_requests(self, case, code):
+        return self._d("model_requests", case, code)
+
+    def model_result(self, case, replies):
+        return self._d("model_result", case, replies)
+
+    def agree(self, case, code, model):
+        return self._d("agree", case, code, model)
+
+    def spec_violation(self, case, code):
+        return self._d("spec_violation", case, code)
+
+    def classify(self, case, why):
+        return self._d("classify", case, why)
+
+    def nontrivial_key(self, case, code):
+        return self._d("nontrivial_key", case, code)
+
+    def tags(self, case, code):
+        t = self._d("tags", case, code)
+        return (["delegate:" + case["prop"]] + list(t)) if isinstance(case, dict) and case.get("op") == "delegate" else t
+
+    def shrink(self, case, fails):
+        if isinstance(case, dict) and case.get("op") == "delegate":
+            return case
+        return super().shrink(case, fails)
